@@ -25,7 +25,7 @@ ASSUMPTIONS = ["markers are never stacked on a base that already carries one (am
                "tracking keys from ural's documented list only; tracking values never contain '&' or '#'", "escape toggles restricted to characters safe to appear raw (C02's rule)",
                "AMP path markers are not part of this property's list (C05 owns them)", "with platform_aware=True only non-platform hosts and transformations that keep the platform"]
 FLOORS = ["class-compared", "T-scheme", "T-userinfo", "T-subdomain", "T-default-port", "T-host-case", "T-trailing-slash", "T-index", "T-fragment", "T-tracking", "T-permute",
-          "T-amp-entity", "T-escape", "T-wrap", "T-controls", "stacked-markers", "redirect-law-checked", "opt-quoted", "opt-platform_aware", "tracking-every-position", "permutations-all"]
+          "T-amp-entity", "T-escape", "T-wrap", "T-controls", "stacked-markers", "platform-base-variant", "redirect-law-checked", "opt-quoted", "opt-platform_aware", "tracking-every-position", "permutations-all"]
 PROBE_FLOORS = ["should_strip_query_item", "should_strip_fragment", "normalize_url"]
 
 CTX = [None]
@@ -242,6 +242,26 @@ def check_chain(ctx, fn, base_url, chain, optsets=OPTSETS):
                 ctx.nontrivial((base_url, uv, oname))
 
 
+# platform URLs whose platform-aware form differs from the generic one, and the variations that keep them on the platform
+PLATFORM_BASES = ["https://www.facebook.com/photo/?fbid=10159&set=a.4242", "http://facebook.com/story.php?story_fbid=123456789&id=987654321", "https://www.facebook.com/some.page/posts/12345678",
+                  "https://www.youtube.com/watch?v=aBcDeFgHiJk&feature=share&list=PL1", "http://youtu.be/aBcDeFgHiJk?t=10", "https://www.youtube.com/channel/UCabcdefghijklmnopqrstuv/videos",
+                  "https://www.facebook.com/groups/12345678/permalink/87654321/"]
+
+
+def platform_variants(u, rng):
+    from urllib.parse import urlsplit
+    sp = urlsplit(u)
+    rest = u[len(sp.scheme) + 3 + len(sp.netloc):]
+    host = sp.netloc
+    bare = host[4:] if host.startswith("www.") else host
+    out = [("userinfo", "%s://user:pw@%s%s" % (sp.scheme, host, rest)), ("userinfo", "%s://first.last@%s%s" % (sp.scheme, host, rest)), ("userinfo", "%s://u%%40x:p%%3Aw@%s%s" % (sp.scheme, host, rest)),
+           ("scheme", ("https" if sp.scheme == "http" else "http") + u[len(sp.scheme):]), ("scheme", host + rest), ("scheme", "//" + host + rest),
+           ("default-port", "%s://%s:%s%s" % (sp.scheme, host, "80" if sp.scheme == "http" else "443", rest)), ("host-case", "%s://%s%s" % (sp.scheme, host.upper(), rest)),
+           ("subdomain", "%s://www.%s%s" % (sp.scheme, bare, rest)), ("subdomain", "%s://m.%s%s" % (sp.scheme, bare, rest)), ("wrap", " \t" + u + "\n"), ("controls", u[:9] + "\x00" + u[9:]),
+           ("tracking", u + ("&" if "?" in u else "?") + "utm_source=x&fbclid=1"), ("fragment", u + "#top")]
+    return out
+
+
 def singles(ctx, base, rng):
     """Every single transformation; tracking at every position, all permutations (<= 4 items)."""
     out = []
@@ -284,7 +304,8 @@ STACKED = [("amp-madame.lefigaro.fr", "www.amp-madame.lefigaro.fr"), ("amp-x.exa
 REDIRECTS = ["https://www.facebook.com/login/?next=https%3A%2F%2Fwww.lemonde.fr%2Fa%2F%3Futm_source%3Dx", "http://a.com/r?url=http%3A%2F%2Fwww.example.com%2Fx%2Findex.html%23top",
              "https://mashable-com.cdn.ampproject.org/c/s/mashable.com/2018/08/10/x.amp", "http://l.example.com/l.php?u=https%3A%2F%2FEXAMPLE.org%2Fp%3Fb%3D2%26a%3D1&h=AT0",
              "http://a.com/?u=/x/y/", "http://a.com/go?target=https%3A%2F%2Fb.org%2F%3Fnext%3Dhttps%253A%252F%252Fc.net%252Fz", "http://a&u=/x", "http://www.a.com/?q=http://b.org",
-             "https://www.youtube.com/redirect?q=lemonde.fr%2Fa&v=1", "http://a.com/p?redirect=%2Fz%3Futm_source%3D1%23frag"]
+             "https://www.youtube.com/redirect?q=lemonde.fr%2Fa&v=1", "http://a.com/p?redirect=%2Fz%3Futm_source%3D1%23frag",
+             "a.fr/login?next=/home", "a.fr?u=/p", "www.a.fr/x/?url=%2Fy%2F&utm_source=1", "//a.fr/?u=/p"]
 
 
 def run(ctx):
@@ -326,6 +347,12 @@ def run(ctx):
                     ctx.count("stacked-markers")
             for u in REDIRECTS:
                 redirect_law(u)
+            for u in PLATFORM_BASES:
+                pv = platform_variants(u, rng)
+                for name, uv in pv:
+                    check_chain(ctx, fn, u, [(name, uv)], OPTSETS)
+                    ctx.count("platform-base-variant")
+                account(ctx, pv)
             ctx.sample("redirect", REDIRECTS[:3])
         # grid: every single transformation
         idx = 0
